@@ -42,6 +42,7 @@ def frame_obligations(g):
     for m in MODULES:
         frames.no_hash_order(scoped[m], g, m)
         frames.no_global_mutation(scoped[m], g, m)
+        frames.no_mutable_defaults(scoped[m], g, m)
 
 
 # ------------------------------------------------------------------------------------ bounded part
